@@ -197,6 +197,10 @@ class NativeSpec:
         self.memo = memo  # id(original) -> deep-copied twin (pre-state)
         self.roots = roots
         self.old_mode = 0
+        self.reachable_all_pre = []
+
+    def memo_originals(self):
+        return [o for o in self.reachable_all_pre]
 
     def twin(self, v):
         if self.old_mode:
@@ -332,6 +336,9 @@ class NativeSpec:
                 return bool(self.ev(n.args[0], env)) == bool(self.ev(n.args[1], env))
             if nm == "ite":
                 return self.ev(n.args[1], env) if self.ev(n.args[0], env) else self.ev(n.args[2], env)
+            if nm == "fresh":
+                v = self.ev(n.args[0], env)
+                return not any(v is t for t in self.memo_originals())
             if nm == "bit":
                 return (int(self.ev(n.args[0], env)) >> self.ev(n.args[1], env)) & 1
             if nm in REG.specs and nm not in env:
@@ -353,8 +360,8 @@ def replay(key: str, model: dict, obligation: dict) -> dict:
     try:
         con: Contract = REG.contracts[key]
         finfo = Repo.get().find(key.split("#")[0])
-        if con.region is not None:
-            out["detail"] = "replay of lambda/nested regions is not implemented"
+        if con.region is not None and con.region[0] != "request":
+            out["detail"] = "replay of lambda/nested regions other than request handlers is not implemented"
             return out
         if REPO != "/repo":
             src = REPO + "/src"
@@ -364,6 +371,8 @@ def replay(key: str, model: dict, obligation: dict) -> dict:
         params = model.get("params", {})
         a = finfo.node.args
         names = [p.arg for p in a.posonlyargs + a.args + a.kwonlyargs]
+        if con.region is not None:
+            names = ["self", "request", "context"]
         b = Builder()
         owner = finfo.cls
         built: Dict[str, Any] = {}
@@ -373,6 +382,8 @@ def replay(key: str, model: dict, obligation: dict) -> dict:
                 return out
             if k == 0 and owner is not None and not finfo.is_staticmethod:
                 ty = T.OBJ(Repo.get().class_by_name(con.self_class) if con.self_class else owner)
+            elif con.region is not None:
+                ty = T.LIST(T.ANY) if nm == "request" else T.ANY
             else:
                 p = (a.posonlyargs + a.args + a.kwonlyargs)[k]
                 ty = T.parse_ann(p.annotation, finfo.module, owner) if p.annotation is not None else None
@@ -393,7 +404,12 @@ def replay(key: str, model: dict, obligation: dict) -> dict:
                 out["detail"] = f"precondition {label} not evaluable natively: {type(ex).__name__}: {ex}"
                 return out
         # call the real function
-        if owner is not None and not finfo.is_staticmethod:
+        if con.region is not None:
+            selfobj = built["self"]
+            rm = getattr(type(selfobj), finfo.name)(selfobj)  # the real _init_request_manager builds the real lambdas
+            handler = rm.request_types[con.region[1]].func
+            call = lambda: handler(built["request"], built["context"])  # noqa: E731
+        elif owner is not None and not finfo.is_staticmethod:
             selfobj = built[names[0]]
             fn = getattr(type(selfobj), finfo.name)
             if isinstance(fn, property):
@@ -426,8 +442,24 @@ def replay(key: str, model: dict, obligation: dict) -> dict:
             return out
         if kind == "post":
             if raised is not None:
-                out["reproduced"] = None
-                out["detail"] = f"real code raised {type(raised).__name__} before the postcondition could be evaluated"
+                names = [c.__name__ for c in type(raised).__mro__]
+                listed = next((n for n in con.raises if n in names), None)
+                if listed is not None:
+                    try:
+                        allowed = bool(ns.ev(ast.parse("(" + con.raises[listed].strip() + ")", mode="eval").body, dict(snapshot)))
+                    except Exception as ex:
+                        out["detail"] = f"raises condition not evaluable natively: {ex}"
+                        return out
+                    out["reproduced"] = not allowed
+                    out["detail"] = (f"real code raised {type(raised).__name__} " +
+                                     ("within" if allowed else "OUTSIDE") + f" the condition the contract allows for {listed}")
+                    return out
+                if isinstance(raised, (AttributeError, TypeError, NameError)):
+                    out["reproduced"] = None
+                    out["detail"] = f"real code raised {type(raised).__name__} (possibly an artefact of the partially constructed state)"
+                    return out
+                out["reproduced"] = True
+                out["detail"] = f"real code raised {type(raised).__name__}, which the contract does not allow, instead of returning"
                 return out
             expr = dict(con.ensures).get(label)
             if expr is None:
